@@ -66,8 +66,15 @@ def run_one(args):
     grouped = keep == 'grouped'   # adj-rib-out kept, routes with equal attributes share an UPDATE
     keep = bool(keep)
     cfg = edev.base_config(hold=30, routes=filler(nfill), extra=(('group-updates true;' if grouped else 'group-updates false;') + ('' if keep else ' adj-rib-out false;')))
+    if not keep:
+        # `route-refresh enable` makes the parser keep the Adj-RIB-Out whatever `adj-rib-out` says: without the capability the option is in force
+        cfg = cfg.replace('route-refresh enable;', 'route-refresh disable;')
     viols = []
     with World(cfg) as wd:
+        wd.settle()
+        kept = {bool(n.rib.outgoing.cache) for n in wd.cfg.neighbors.values()}
+        if kept != {keep}:
+            raise core.HarnessError(f'adj-rib-out {"kept" if keep else "off"} asked for, the RIB of the neighbor says cache={kept}')
         env = c05.Env(wd, hold=30, script=[], config_name='active')
         # --- session 1, with the cut armed
         first = None
@@ -231,6 +238,8 @@ def run_one(args):
         if sig not in seen:
             seen.add(sig)
             out.append((sig, what))
+    if not keep:
+        out = [(sg + ':norib', wh) for sg, wh in out]   # (the runs without adj-rib-out)
     return out, (len(final), tuple(sorted(set(eors))), nmsg), nmsg
 
 
@@ -326,3 +335,4 @@ def replay(case):
         args = args + (tuple(case['cut2']),)
     viols, outcome, n = run_one(args)
     return [{'signature': s, 'what': wh} for s, wh in viols]
+
